@@ -245,7 +245,7 @@ def check_spelling(c, how, push0, stats):
 def synthetic_doc(draw):
     nb = draw(st.integers(1, 4))
     init = [draw(gen.block(max_len=8)) for _ in range(draw(st.integers(1, 2)))]
-    run = [draw(st.one_of(gen.block(max_len=10), gen.corpus_block(mutate=False))) for _ in range(nb)]
+    run = [draw(st.one_of(gen.block(max_len=10), gen.corpus_block(mutate=False), gen.operand_split_block())) for _ in range(nb)]
     extra = {}
     if draw(st.booleans()):
         extra["lib/x.sol:Iface"] = {}
